@@ -10,6 +10,7 @@ import (
 	"fmt"
 	"io"
 	"strings"
+	"sync"
 
 	"github.com/99designs/keyring"
 	"github.com/ProtonMail/go-crypto/openpgp"
@@ -34,6 +35,7 @@ type Ref struct {
 type Crash struct{}
 
 type Repo struct {
+	mu    sync.Mutex // the real back ends are safe for concurrent use; so is the model
 	Blobs   map[repository.Hash][]byte
 	Trees   map[repository.Hash][]repository.TreeEntry
 	Commits map[repository.Hash]*CommitRec
@@ -103,6 +105,8 @@ func (r *Repo) GetUserName() (string, error)        { return r.UserName, nil }
 func (r *Repo) GetUserEmail() (string, error)       { return r.UserEmail, nil }
 func (r *Repo) GetCoreEditor() (string, error)      { return "vi", nil }
 func (r *Repo) GetRemotes() (map[string]string, error) {
+	r.mu.Lock()
+	defer r.mu.Unlock()
 	out := map[string]string{}
 	for k, v := range r.Remotes {
 		out[k] = v
@@ -113,6 +117,8 @@ func (r *Repo) LocalStorage() repository.LocalStorage { return r.FS }
 func (r *Repo) Close() error                          { return nil }
 
 func (r *Repo) GetIndex(name string) (repository.Index, error) {
+	r.mu.Lock()
+	defer r.mu.Unlock()
 	ix, ok := r.Indexes[name]
 	if !ok {
 		ix = &Index{repo: r, name: name, Docs: map[string][]string{}}
@@ -130,6 +136,8 @@ type Index struct {
 }
 
 func (ix *Index) IndexOne(id string, texts []string) error {
+	ix.repo.mu.Lock()
+	defer ix.repo.mu.Unlock()
 	ix.repo.mutate("IndexOne " + ix.name + " " + id)
 	if _, ok := ix.Docs[id]; !ok {
 		ix.Order = append(ix.Order, id)
@@ -143,6 +151,8 @@ func (ix *Index) IndexBatch() (func(id string, texts []string) error, func() err
 }
 
 func (ix *Index) Search(terms []string) ([]string, error) {
+	ix.repo.mu.Lock()
+	defer ix.repo.mu.Unlock()
 	var out []string
 	for _, id := range ix.Order {
 		texts, ok := ix.Docs[id]
@@ -171,12 +181,16 @@ func (ix *Index) Search(terms []string) ([]string, error) {
 func (ix *Index) DocCount() (uint64, error) { return uint64(len(ix.Docs)), nil }
 
 func (ix *Index) Remove(id string) error {
+	ix.repo.mu.Lock()
+	defer ix.repo.mu.Unlock()
 	ix.repo.mutate("IndexRemove " + ix.name + " " + id)
 	delete(ix.Docs, id)
 	return nil
 }
 
 func (ix *Index) Clear() error {
+	ix.repo.mu.Lock()
+	defer ix.repo.mu.Unlock()
 	ix.repo.mutate("IndexClear " + ix.name)
 	ix.Docs = map[string][]string{}
 	ix.Order = nil
@@ -217,6 +231,8 @@ func (r *Repo) PushRefs(remote string, prefixes ...string) (string, error) {
 }
 
 func (r *Repo) StoreData(data []byte) (repository.Hash, error) {
+	r.mu.Lock()
+	defer r.mu.Unlock()
 	r.mutate("StoreData")
 	h := r.newHash('b')
 	r.Blobs[h] = append([]byte(nil), data...)
@@ -224,6 +240,8 @@ func (r *Repo) StoreData(data []byte) (repository.Hash, error) {
 }
 
 func (r *Repo) ReadData(hash repository.Hash) ([]byte, error) {
+	r.mu.Lock()
+	defer r.mu.Unlock()
 	d, ok := r.Blobs[hash]
 	if !ok {
 		return nil, fmt.Errorf("unknown hash")
@@ -232,6 +250,8 @@ func (r *Repo) ReadData(hash repository.Hash) ([]byte, error) {
 }
 
 func (r *Repo) StoreTree(entries []repository.TreeEntry) (repository.Hash, error) {
+	r.mu.Lock()
+	defer r.mu.Unlock()
 	r.mutate("StoreTree")
 	h := r.newHash('e')
 	r.Trees[h] = append([]repository.TreeEntry(nil), entries...)
@@ -239,6 +259,8 @@ func (r *Repo) StoreTree(entries []repository.TreeEntry) (repository.Hash, error
 }
 
 func (r *Repo) ReadTree(hash repository.Hash) ([]repository.TreeEntry, error) {
+	r.mu.Lock()
+	defer r.mu.Unlock()
 	if t, ok := r.Trees[hash]; ok {
 		return t, nil
 	}
@@ -260,6 +282,8 @@ func (r *Repo) StoreSignedCommit(treeHash repository.Hash, signKey *openpgp.Enti
 }
 
 func (r *Repo) storeCommit(treeHash repository.Hash, signed bool, parents []repository.Hash) (repository.Hash, error) {
+	r.mu.Lock()
+	defer r.mu.Unlock()
 	r.mutate("StoreCommit")
 	h := r.newHash('c')
 	r.Commits[h] = &CommitRec{Parents: append([]repository.Hash(nil), parents...), Tree: treeHash, Signed: signed, SigOK: signed}
@@ -291,6 +315,8 @@ type sigReader struct{ ok bool }
 func (s *sigReader) Read(p []byte) (int, error) { return 0, io.EOF }
 
 func (r *Repo) ReadCommit(hash repository.Hash) (repository.Commit, error) {
+	r.mu.Lock()
+	defer r.mu.Unlock()
 	c, ok := r.Commits[hash]
 	if !ok {
 		return repository.Commit{}, fmt.Errorf("unknown commit")
@@ -313,6 +339,8 @@ func (r *Repo) findRef(name string) int {
 }
 
 func (r *Repo) ResolveRef(ref string) (repository.Hash, error) {
+	r.mu.Lock()
+	defer r.mu.Unlock()
 	if i := r.findRef(ref); i >= 0 {
 		return r.Refs[i].Hash, nil
 	}
@@ -320,6 +348,8 @@ func (r *Repo) ResolveRef(ref string) (repository.Hash, error) {
 }
 
 func (r *Repo) UpdateRef(ref string, hash repository.Hash) error {
+	r.mu.Lock()
+	defer r.mu.Unlock()
 	r.mutate("UpdateRef " + ref + " " + string(hash))
 	r.SetRef(ref, hash)
 	return nil
@@ -335,6 +365,8 @@ func (r *Repo) SetRef(ref string, hash repository.Hash) {
 }
 
 func (r *Repo) RemoveRef(ref string) error {
+	r.mu.Lock()
+	defer r.mu.Unlock()
 	r.mutate("RemoveRef " + ref)
 	if i := r.findRef(ref); i >= 0 {
 		r.Refs = append(r.Refs[:i:i], r.Refs[i+1:]...)
@@ -343,6 +375,8 @@ func (r *Repo) RemoveRef(ref string) error {
 }
 
 func (r *Repo) ListRefs(refPrefix string) ([]string, error) {
+	r.mu.Lock()
+	defer r.mu.Unlock()
 	var out []string
 	for _, rf := range r.Refs {
 		if strings.HasPrefix(rf.Name, refPrefix) {
@@ -358,10 +392,14 @@ func (r *Repo) ListRefs(refPrefix string) ([]string, error) {
 }
 
 func (r *Repo) RefExist(ref string) (bool, error) {
+	r.mu.Lock()
+	defer r.mu.Unlock()
 	return r.findRef(ref) >= 0, nil
 }
 
 func (r *Repo) CopyRef(source string, dest string) error {
+	r.mu.Lock()
+	defer r.mu.Unlock()
 	i := r.findRef(source)
 	if i < 0 {
 		return repository.ErrNotFound
@@ -385,6 +423,8 @@ func (r *Repo) clockRepo() *repository.GoGitRepo {
 }
 
 func (r *Repo) AllClocks() (map[string]lamport.Clock, error) {
+	r.mu.Lock()
+	defer r.mu.Unlock()
 	// GoGitRepo.AllClocks lists the directory with os.ReadDir; modelled on M-FS
 	out := map[string]lamport.Clock{}
 	infos, _ := r.FS.ReadDir("clocks")
@@ -400,19 +440,27 @@ func (r *Repo) AllClocks() (map[string]lamport.Clock, error) {
 
 // GetClock is GoGitRepo.getClock: load, do not create.
 func (r *Repo) GetClock(name string) (lamport.Clock, error) {
+	r.mu.Lock()
+	defer r.mu.Unlock()
 	return r.clockRepo().VHGetClock(name)
 }
 
 func (r *Repo) GetOrCreateClock(name string) (lamport.Clock, error) {
+	r.mu.Lock()
+	defer r.mu.Unlock()
 	return r.clockRepo().GetOrCreateClock(name)
 }
 
 func (r *Repo) Increment(name string) (lamport.Time, error) {
+	r.mu.Lock()
+	defer r.mu.Unlock()
 	r.mutate("Increment " + name)
 	return r.clockRepo().Increment(name)
 }
 
 func (r *Repo) Witness(name string, time lamport.Time) error {
+	r.mu.Lock()
+	defer r.mu.Unlock()
 	r.mutate("Witness " + name)
 	return r.clockRepo().Witness(name, time)
 }
